@@ -344,6 +344,10 @@ class RTCIceTransport(AsyncIOEventEmitter):
         except ConnectionError:
             self.__setState("failed")
         else:
+            if self.state == "closed":
+                # stop() ran while the connectivity checks were completing:
+                # the connection must not outlive it
+                await self._connection.close()
             self.__setState("completed")
         self.__start.set()
 
@@ -370,7 +374,8 @@ class RTCIceTransport(AsyncIOEventEmitter):
         logger.debug(f"RTCIceTransport(%s) {msg}", self.role, *args)
 
     def __setState(self, state: str) -> None:
-        if state != self.__state:
+        # "closed" is final
+        if state != self.__state and self.__state != "closed":
             self.__log_debug("- %s -> %s", self.__state, state)
             self.__state = state
             self.emit("statechange")
